@@ -19,14 +19,14 @@ INFO = {
 }
 
 
-def h_offline(f, N, kind='offline', ext=True, times='origin', twice=0, period=None, late=False):
+def h_offline(f, N, kind='offline', ext=True, times='origin', twice=0, period=None, late=False, full_text=None, extra_vars=()):
     f = T(f)
-    vs = sorted(variables(f))
+    vs = sorted(set(variables(f)) | set(extra_vars))
     uf = refsem.has(f, {'sqrt', 'exp', 'ln', 'pow', 'log'})
 
     def body(env):
         A = env.A
-        s = dt.make_spec(kind, 'out = ' + text(f), vs, period=(tuple(period) + (0.1,)) if period else None, f=f, config_after_parse=late)
+        s = dt.make_spec(kind, full_text or ('out = ' + text(f)), vs, period=(tuple(period) + (0.1,)) if period else None, f=f, config_after_parse=late)
         w = dt.trace(env, vs, N, ext=ext and not uf)
         if uf:
             for v in vs:
@@ -117,6 +117,18 @@ def obligations(tier, rng):
         for N in (2, 6):
             out.append(ob('C01', 'offline', 'pool/%s/P=%s/unit=%s/N=%d' % (g[1], g[3] or '-', g[4] or '-', N), f=g, N=N, kind='offline' if (i + N) % 3 else 'combined',
                           ext=True, times='fixed', late=(N == 6 and i % 2 == 1)))       # every other case: unit and period set after parse()
+    # texts with several assertions: evaluate() returns the robustness of the LAST one, whatever the others are and however they refer to
+    # each other (f is the last assertion with the names written out)
+    GX2, GY0 = ('geq', X, ('const', 2.0)), ('geq', Y, ('const', 0.0))
+    multi = [('a = (x) >= (2.0); b = always((a) and ((y) >= (0.0))); out = a', GX2),
+             ('a = (x) >= (2.0); b = always((a) and ((y) >= (0.0))); out = b', ('always', ('and', GX2, GY0))),
+             ('a = once[0,1](x); b = (a) or (y); c = historically(b); out = b', ('or', ('once_t', X, 0, 1), Y)),
+             ('a = prev(x); out = a; c = (a) and (y)', ('and', ('prev', X), Y)),
+             ('a = (x) >= (2.0); out = (a) and (a)', ('and', GX2, GX2)),
+             ('a = (y) >= (0.0); b = eventually[0,1](a); res = (a) until (b); out = a', GY0)]
+    for txt, fm in multi:
+        for N in (1, 4):
+            out.append(ob('C01', 'offline', 'multi/%s/N=%d' % (txt, N), f=fm, N=N, kind='offline' if N == 1 else 'combined', ext=False, times='fixed', full_text=txt, extra_vars=['x', 'y']))
     # depth 2 on traces that are shorter than (or exactly as long as) the bound of the inner future operator
     inner_fut = [('eventually_t', X, 0, 3), ('always_t', X, 1, 3), ('until_t', X, Y, 0, 3), ('unless_t', X, Y, 1, 3), ('eventually_t', X, 2, 2)]
     outer_all = ops_un + list(refsem.UNT) + ops_bin + list(refsem.BINT)
